@@ -23,6 +23,7 @@ import (
 	"seehuhn.de/go/pdf/pagetree"
 	"seehuhn.de/go/pdf/reader"
 	"verif/sim/core"
+	"verif/sim/props/c04"
 	"verif/sim/richdoc"
 	"verif/sim/simdisk"
 	"verif/sim/tape"
@@ -59,6 +60,7 @@ var sxPat = regexp.MustCompile(`startxref[\r\n]+([0-9]+)`)
 var arrPat = regexp.MustCompile(`/(W|Index|Kids|MediaBox|Filter|DecodeParms) ?\[[^\]]{0,80}\]`)
 var namePat = regexp.MustCompile(`/(Filter|Type|Subtype|Parent|Root|Pages|Kids|Contents|Font|Encoding|FontFile2|FontFile3|FontFile|ToUnicode|DescendantFonts|First|Next|Last|Dests|Names|Outlines) ?(/[A-Za-z0-9]+|[0-9]+ [0-9]+ R)`)
 
+var prevPat = regexp.MustCompile(`/Prev[ \r\n]+([0-9]+)`)
 var filterNamePat = regexp.MustCompile(`/Filter ?/([A-Za-z0-9]+)`)
 
 var hostileInts = []string{"0", "1", "-1", "2", "255", "65535", "65536", "1048576", "16777215", "16777216", "2147483647", "2147483648", "4294967296", "9223372036854775807", "-9223372036854775808", "99999999999999999999"}
@@ -80,7 +82,7 @@ func corrupt(t *tape.Tape, img []byte, n int) ([]byte, []string) {
 	var kinds []string
 	for i := 0; i < n && len(out) > 0; i++ {
 		l := fmt.Sprintf("c%d", i)
-		switch t.Weighted(l+".kind", 3, 2, 2, 2, 2, 2, 6, 5, 2, 3, 3, 3) {
+		switch t.Weighted(l+".kind", 3, 2, 2, 2, 2, 2, 6, 5, 2, 3, 3, 3, 2, 3) {
 		case 0:
 			p := posIn(t, l+".pos", len(out))
 			out[p] ^= 1 << t.Draw(l+".bit", 8)
@@ -172,6 +174,35 @@ func corrupt(t *tape.Tape, img []byte, n int) ([]byte, []string) {
 			repl := repls[t.Draw(l+".v", len(repls))]
 			out = append(out[:m[0]:m[0]], append([]byte(repl), out[m[1]:]...)...)
 			kinds = append(kinds, "array -> "+repl)
+		case 12: // bytes in front of the header (all offsets become relative)
+			k := 1 + t.Draw(l+".junk", 300)
+			junk := bytes.Repeat([]byte{byte(tape.Pick(t, l+".junkbyte", 'x', ' ', '\n', 0))}, k)
+			out = append(junk, out...)
+			kinds = append(kinds, fmt.Sprintf("prepend %d", k))
+		case 13: // /Prev or startxref rewired to another cross-reference section
+			var offsets []string
+			for _, m := range sxPat.FindAllSubmatch(out, -1) {
+				offsets = append(offsets, string(m[1]))
+			}
+			for _, m := range prevPat.FindAllSubmatch(out, -1) {
+				offsets = append(offsets, string(m[1]))
+			}
+			ms := prevPat.FindAllSubmatchIndex(out, -1)
+			if len(ms) == 0 {
+				// no /Prev yet: add one to the last trailer dictionary
+				i := bytes.LastIndex(out, []byte("/Size"))
+				if i < 0 || len(offsets) == 0 {
+					continue
+				}
+				ins := "/Prev " + offsets[posIn(t, l+".off", len(offsets))] + " "
+				out = append(out[:i:i], append([]byte(ins), out[i:]...)...)
+				kinds = append(kinds, "add "+ins)
+				continue
+			}
+			m := ms[posIn(t, l+".m", len(ms))]
+			repl := offsets[posIn(t, l+".off", len(offsets))]
+			out = append(out[:m[2]:m[2]], append([]byte(repl), out[m[3]:]...)...)
+			kinds = append(kinds, "/Prev rewired")
 		case 11: // a single filter becomes a chain
 			ms := filterNamePat.FindAllSubmatchIndex(out, -1)
 			if len(ms) == 0 {
@@ -209,7 +240,15 @@ func Run(e *core.Env) {
 	t := e.T
 	var img []byte
 	var desc, password string
-	if t.Bool("base.rich", 3, 5) {
+	baseKind := t.Weighted("base.kind", 5, 3, 2)
+	if baseKind == 2 {
+		var ok bool
+		img, desc, ok = c04.Image(t)
+		if !ok {
+			e.Skip("history not renderable")
+			return
+		}
+	} else if baseKind == 0 {
 		var info *richdoc.Info
 		var err error
 		img, info, err = richdoc.Build(t)
